@@ -1367,6 +1367,15 @@ func (g gen) value(ti tyInfo) ([]fv, map[string]any, []string) {
 		if g.r.Chance(1, 5) && g.addCaseVariants(ti, vals, claims, 1+g.r.IntN(2)) > 0 {
 			tags = append(tags, "fxx-c12-1=case-variant-key")
 		}
+		if g.r.Chance(1, 4) { // look-alikes of registered members among the custom claims
+			for j := 1 + g.r.IntN(2); j > 0; j-- {
+				f := drv.Pick(g.r, ti.Schema)
+				if al := aliasesOf(ti, f.Name); len(al) > 0 {
+					claims[drv.Pick(g.r, al)] = g.aliasVal(f.Kind)
+					tags = append(tags, "alias=custom")
+				}
+			}
+		}
 		// custom claims that are *oidc.ActorClaims on the Go side: a member of the
 		// value's own act chain (one object, two paths), or a chain of their own
 		// (also under the name "act": read back into an unset act member)
@@ -1504,6 +1513,81 @@ var altForms = []struct {
 	{"obj-addr", map[string]any{"country": "CH", "locality": 5.0}}, {"obj-addr-ok", map[string]any{"country": "CH", "formatted": "x", "other": true}},
 }
 
+// ---------- look-alike members ----------
+
+// aliasTable: names other providers / older drafts / sloppy callers use for
+// what a registered member holds. None of them is a registered name (nor a case
+// variant of one: aliasesOf filters per type), so whatever such a member holds
+// is a custom claim and must never turn up in the registered member.
+var aliasTable = map[string][]string{
+	"scope": {"scp", "scopes", "scope_list", "permissions", "scope "}, "aud": {"audience", "audiences", "resource", "aud_"},
+	"client_id": {"client", "cid", "clientId", "appid", "client-id"}, "sub": {"uid", "user_id", "userId", "subject", "oid"},
+	"iss": {"issuer", "idp", "iss_"}, "exp": {"expires", "expires_at", "expiry", "expires_in"}, "iat": {"issued_at", "issuedAt"},
+	"nbf": {"not_before", "notBefore"}, "auth_time": {"authTime", "auth-time"}, "amr": {"amrs", "auth_methods"}, "acr": {"acrs", "acr_values"},
+	"azp": {"authorized_party", "azp_", "azpacr"}, "jti": {"uti", "tid", "token_id"}, "nonce": {"nonce_", "n"}, "act": {"actor", "may_act", "acts"},
+	"email": {"mail", "emails", "e-mail"}, "email_verified": {"emailVerified", "email-verified", "verified"},
+	"phone_number": {"phone", "phoneNumber"}, "phone_number_verified": {"phoneNumberVerified", "phone_verified"},
+	"username": {"user_name", "upn", "unique_name", "login"}, "preferred_username": {"preferred-username", "preferredUsername"},
+	"name": {"display_name", "displayName", "names"}, "given_name": {"givenName", "first_name"}, "family_name": {"familyName", "last_name"},
+	"locale": {"locales", "ui_locales", "lang"}, "address": {"addr", "addresses"}, "updated_at": {"updatedAt", "updated"},
+	"events": {"event", "evt"}, "sid": {"session_id", "sids"}, "active": {"is_active", "valid", "actives"}, "token_type": {"typ", "tokenType"},
+	"at_hash": {"atHash", "at-hash"}, "c_hash": {"cHash"}, "picture": {"avatar"}, "website": {"url"}, "gender": {"sex"}, "birthdate": {"dob", "birthday"},
+	"zoneinfo": {"tz", "timezone"}, "nickname": {"nick"}, "middle_name": {"middleName"}, "profile": {"profiles"},
+}
+
+func aliasesOf(ti tyInfo, name string) []string {
+	var out []string
+next:
+	for _, a := range append(append([]string{}, aliasTable[name]...), name+"s", "x-"+name, strings.ReplaceAll(name, "_", "-")) {
+		for _, f := range ti.Schema {
+			if strings.EqualFold(a, f.Name) {
+				continue next
+			}
+		}
+		out = append(out, a)
+	}
+	return out
+}
+
+// aliasForms: what a look-alike member may hold besides the member's own
+// documented forms: arrays with mixed element types first.
+var aliasForms = []struct {
+	tag string
+	v   any
+}{
+	{"arr-mixed", []any{"read", 7.0}}, {"arr-null", []any{"a", nil}}, {"arr-strs", []any{"read", "write"}}, {"str-words", "read write"},
+	{"str", "x"}, {"num", 1700000000.0}, {"null", nil}, {"obj", map[string]any{"sub": "y", "k": []any{1.0}}}, {"true", true}, {"str-true", "true"},
+	{"arr-obj", []any{map[string]any{}}}, {"arr-arr", []any{[]any{"a"}}}, {"str-rfc3339", "2023-01-02T03:04:05Z"}, {"str-locale", "de-CH"},
+}
+
+func (g gen) aliasVal(kind string) any {
+	if g.r.Bool() {
+		return g.typedJSON(kind)
+	}
+	return drv.Pick(g.r, aliasForms).v
+}
+
+// aliasSweep: for every type, every registered member and every look-alike
+// name: the document that lacks the member and holds the look-alike (a
+// mixed-type array, a form made of strings only, and one other form in turn).
+func aliasSweep(w *emit.Writer) {
+	n := 0
+	for _, ti := range types {
+		for _, f := range ti.Schema {
+			for _, a := range aliasesOf(ti, f.Name) {
+				n++
+				for _, form := range []int{0, 2 + n%2, 4 + n%(len(aliasForms)-4)} { // mixed array; all-string array / string of words; one other
+					doc := map[string]any{a: aliasForms[form].v}
+					if f.Name != "sub" {
+						doc["sub"] = "u"
+					}
+					decDoc(w, ti, doc, []string{"kind=dec", "type=" + ti.Coq, "alias=" + f.Kind + ":absent", "aliasform=" + aliasForms[form].tag})
+				}
+			}
+		}
+	}
+}
+
 // ---------- cases ----------
 
 // sizeCases: values and documents beyond 1 KiB / 4 KiB (8 KiB in the thorough
@@ -1589,6 +1673,7 @@ func codecCases(w *emit.Writer, r drv.Rand, n int, thorough bool) {
 			[]string{"custom=set", "collide=none", "fxx-c12-1=case-variant-key"})
 	}
 	sizeCases(w, thorough)
+	aliasSweep(w)
 	for i := 0; i < n; i++ {
 		ti := types[i%len(types)]
 		switch (i / len(types)) % 5 {
@@ -1755,6 +1840,28 @@ func decCase(w *emit.Writer, g gen, ti tyInfo) {
 		if nm == 0 {
 			tags = append(tags, "alt=none")
 		}
+		// look-alike custom members next to a registered member that is absent
+		// (or present): scp / scopes for scope, audience for aud, uid for sub ...
+		if r.Chance(2, 5) {
+			for j := 1 + r.IntN(3); j > 0; j-- {
+				f := drv.Pick(r, ti.Schema)
+				al := aliasesOf(ti, f.Name)
+				if len(al) == 0 {
+					continue
+				}
+				for k := 1 + r.IntN(2); k > 0; k-- {
+					m[drv.Pick(r, al)] = g.aliasVal(f.Kind)
+				}
+				st := "present"
+				if r.Chance(2, 3) {
+					delete(m, f.Name)
+					st = "absent"
+				} else if _, ok := m[f.Name]; !ok {
+					st = "absent"
+				}
+				tags = append(tags, "alias="+f.Kind+":"+st)
+			}
+		}
 		// an act chain written by the driver (repeated parties, depth 0-4)
 		for _, f := range ti.Schema {
 			if f.Kind == "KActor" && r.Chance(1, 4) {
@@ -1764,6 +1871,11 @@ func decCase(w *emit.Writer, g gen, ti tyInfo) {
 			}
 		}
 	}
+	decDoc(w, ti, doc, tags)
+}
+
+// decDoc feeds one document to the type's decoder (and re-marshals what it accepted).
+func decDoc(w *emit.Writer, ti tyInfo, doc any, tags []string) {
 	b, err := json.Marshal(doc) // driver-side value (generic JSON, numLit, strLit)
 	if err != nil {
 		panic(err)
